@@ -490,6 +490,7 @@ struct C19 : vr::Driver {
     close(p[0]);
     int status = 0;
     waitpid(pid, &status, 0);
+    vx::detail::rmTree("/dev/shm/c19p." + std::to_string(pid));  // whatever the child left behind (it may have died)
     size_t cap = sizeof(((sockaddr_un*)nullptr)->sun_path);
     bool crashed = !WIFEXITED(status) || WEXITSTATUS(status) != 0;
     std::string where = describe(&c - &cfgs[0]);
